@@ -249,6 +249,20 @@ def assemble (c : Cell) (r : Option Reaction) (incremental : Bool) (n : Nat) (fr
   let s := transferAll MIN_TOTAL_SS p.1 c.ss
   { totals := s.1, pp := p.2, ss := s.2 }
 
+def absR (x : Rat) : Rat := if x < 0 then -x else x
+
+/-- `solution_check`: a master total within ±MIN_TOTAL is set to 0; a total below −MIN_TOTAL makes `step()` return
+MASS_BALANCE (second component).  H, O and the charge are kept outside `masters` and are not touched. -/
+def solutionCheck (t : Totals) : Totals × Bool :=
+  ({ t with masters := t.masters.map fun p => if absR p.2 ≤ MIN_TOTAL then (p.1, 0) else p },
+   t.masters.any fun p => decide (p.2 < -MIN_TOTAL))
+
+/-- `step()` up to and including `solution_check` -/
+def assembleChecked (c : Cell) (r : Option Reaction) (incremental : Bool) (n : Nat) (fraction : Rat) (kinTotals : ND) :
+    Assembled × Bool :=
+  let a := assemble c r incremental n fraction kinTotals
+  ({ a with totals := (solutionCheck a.totals).1 }, (solutionCheck a.totals).2)
+
 /-! ### writing the solver's result back -/
 
 /-- what the solver leaves behind, as `saver()` reads it: `total_h_x`, `total_o_x`, `cb_x` and master totals of the
@@ -283,8 +297,6 @@ total (phases contribute through the change of their moles) -/
 def residual (c : Cell) (a : Assembled) (o : SolverOut) (e : String) : Rat :=
   NameDouble.get (contribs (partition c a o [])) e - (a.totals.get e + NameDouble.get (a.pp.flatMap amountContribs) e +
     NameDouble.get (a.ss.flatMap amountContribs) e)
-
-def absR (x : Rat) : Rat := if x < 0 then -x else x
 
 /-- the convergence gate on the balance rows, per element with its own tolerance -/
 def Gate (c : Cell) (a : Assembled) (o : SolverOut) (tol : String → Rat) : Prop :=
